@@ -389,3 +389,78 @@ func dedupLets(body []fl.Stmt) []fl.Stmt {
 	}
 	return out
 }
+
+// ------------------------------------------------------------------ loops over ranges and arrays
+
+func famLoops(quick bool) []*prog.Case {
+	var out []*prog.Case
+	bound := func(kind string, v int64, name string) (fl.Expr, []fl.Stmt) {
+		switch kind {
+		case "untyped-lit":
+			return &fl.IntLit{T: fl.I32, V: fl.N(v)}, nil
+		case "typed-let":
+			return fl.V(name), []fl.Stmt{&fl.Let{Name: name, T: fl.I32, Init: fl.L(fl.I32, v)}}
+		case "const":
+			return fl.V(name), []fl.Stmt{&fl.Let{Name: name, T: fl.I32, Init: fl.L(fl.I32, v), Const: true}}
+		default: // call
+			return nil, nil
+		}
+	}
+	for _, lk := range []string{"untyped-lit", "typed-let", "const", "call"} {
+		for _, hk := range []string{"untyped-lit", "typed-let", "const", "call"} {
+			for _, incl := range []bool{false, true} {
+				for _, span := range [][2]int64{{0, 3}, {2, 2}, {-2, 1}} {
+					lk, hk, incl, span := lk, hk, incl, span
+					out = append(out, mk(fmt.Sprintf("C01/loops/range/%s..%s/incl=%v/%d..%d", lk, hk, incl, span[0], span[1]), func(k K) *fl.Program {
+						p := &fl.Program{}
+						var pre []fl.Stmt
+						mkb := func(kind string, v int64, name string) fl.Expr {
+							if kind == "call" {
+								fn := k.N("b" + name)
+								p.Funcs = append(p.Funcs, &fl.Func{Name: fn, Ret: fl.I32, Body: []fl.Stmt{&fl.Return{X: fl.L(fl.I32, v)}}})
+								return fl.C(fn)
+							}
+							e, s := bound(kind, v, name)
+							pre = append(pre, s...)
+							return e
+						}
+						lo := mkb(lk, span[0], "lo")
+						hi := mkb(hk, span[1], "hi")
+						body := append(pre, fl.P(fl.S("start")), &fl.ForRange{Var: "i", Lo: lo, Hi: hi, Incl: incl, Body: []fl.Stmt{fl.P(fl.V("i"))}}, fl.P(fl.S("end")))
+						return mainProg(p, body...)
+					}))
+				}
+			}
+		}
+	}
+	for _, arr := range []string{"fixed", "dyn"} {
+		for _, binds := range [][2]string{{"i", "v"}, {"_", "v"}, {"i", "_"}, {"_", "_"}} {
+			for _, n := range []int{0, 1, 3} {
+				if arr == "fixed" && n == 0 {
+					continue
+				}
+				arr, binds, n := arr, binds, n
+				out = append(out, mk(fmt.Sprintf("C01/loops/forin/%s/%s,%s/n%d", arr, binds[0], binds[1], n), func(k K) *fl.Program {
+					var elems []fl.Expr
+					for j := 0; j < n; j++ {
+						elems = append(elems, fl.L(fl.I32, int64(10*(j+1))))
+					}
+					var t fl.Type = fl.TDyn{Elem: fl.I32}
+					if arr == "fixed" {
+						t = fl.TArr{N: n, Elem: fl.I32}
+					}
+					var lb []fl.Stmt
+					if binds[0] != "_" {
+						lb = append(lb, fl.P(fl.V("i")))
+					}
+					if binds[1] != "_" {
+						lb = append(lb, fl.P(fl.V("v")))
+					}
+					lb = append(lb, fl.P(fl.S("it")))
+					return mainProg(&fl.Program{}, &fl.Let{Name: "a", T: t, Init: &fl.ArrLit{Elems: elems}}, &fl.ForIn{Idx: binds[0], Val: binds[1], X: fl.V("a"), Body: lb}, fl.P(fl.S("end")))
+				}))
+			}
+		}
+	}
+	return out
+}
